@@ -69,7 +69,9 @@ def who_may_publish(ctx, py: PyRepo):
 
 
 def loop_shape(ctx, py: PyRepo):
-    ev = PyEval()
+    from ..core.pyfacts import self_method_resolver
+    # private helpers of ProofExp (a phase split into named parts) are evaluated in place: their loops are the phase's loops
+    ev = PyEval(resolver=self_method_resolver(py, py.cls('ProofExp'), SELF, only_private=True))
     spec = {'execute_gamma_phase': ('publish_axiom', ('attr', SELF, '_axioms'), False),
             'execute_claims_phase': ('publish_claim', ('attr', SELF, '_claims'), True)}
     for meth, (pub, source, rev) in spec.items():
@@ -105,10 +107,22 @@ def loop_shape(ctx, py: PyRepo):
         ctx.ob('publish-loop', meth, ok, detail, where)
     # submodules first, each through the same method
     fn = py.method('ProofExp', 'execute_gamma_phase')
-    src = [n for n in ast.walk(fn) if isinstance(n, ast.For)]
-    sub_ok = any(ast.unparse(n.iter) == 'self._submodules' and any(
-        isinstance(c, ast.Call) and ast.unparse(c.func) == f'{n.target.id}.execute_gamma_phase' and c.args and ast.unparse(c.args[0]) == 'interpreter'
-        for c in ast.walk(n)) for n in src if isinstance(n.target, ast.Name))
+    sub_ok = False
+    SUBS = ('attr', SELF, '_submodules')
+    for p in ev.paths(fn):
+        if p.end[0] == 'raise':
+            continue
+        hit = False
+        for e in p.events:
+            if e.kind == 'loop' and e.value[0] == 'for' and e.value[2] == SUBS:
+                for bp in e.extra:
+                    for x in bp.events:
+                        if x.kind == 'ecall' and x.value[1] == ('attr', ('elem', SUBS), 'execute_gamma_phase') and x.value[2] \
+                                and x.value[2][0] == ('param', 'interpreter'):
+                            hit = True
+        sub_ok = hit
+        if not hit:
+            break
     ctx.ob('publish-loop', 'submodules', sub_ok, 'execute_gamma_phase must publish the axioms of every imported module through the same interpreter',
            py.where('proof', fn))
     # the declared lists are only appended to (no removal / reordering after declaration)
@@ -172,9 +186,13 @@ def symbol_table(ctx, py: PyRepo):
     where = py.where(ci.module, ci.node)
     ATTR = '_symbol_identifiers'
     writes = []
-    fresh_by_setdefault = []
-    for mname, mi in py.modules.items():
-        for node in ast.walk(mi.tree):
+    from .c16 import inline_locals
+
+    def scan(mname, fname, scope_body, nodes):
+        """writes to the table inside one scope; a local that only names the table (`t = self._symbol_identifiers`) is the table"""
+        def txt(e):
+            return ast.unparse(inline_locals(scope_body, e)) if scope_body is not None else ast.unparse(e)
+        for node in nodes:
             tgts = []
             if isinstance(node, ast.Assign):
                 tgts = node.targets
@@ -183,16 +201,21 @@ def symbol_table(ctx, py: PyRepo):
             elif isinstance(node, ast.Delete):
                 tgts = node.targets
             for t in tgts:
-                if ATTR in ast.unparse(t):
+                if isinstance(t, ast.Name):
+                    continue                       # binding a local name never changes the table
+                if ATTR in txt(t):
                     kind = 'delete' if isinstance(node, ast.Delete) else ('item' if isinstance(t, ast.Subscript) else 'rebind')
-                    writes.append((mname, enclosing(mi.tree, node), kind, node))
-            if isinstance(node, ast.Call) and isinstance(node.func, ast.Attribute) and ATTR in ast.unparse(node.func.value) \
+                    writes.append((mname, fname, kind, node))
+            if isinstance(node, ast.Call) and isinstance(node.func, ast.Attribute) and ATTR in txt(node.func.value) \
                     and node.func.attr in ('pop', 'clear', 'popitem', 'update', 'setdefault', '__delitem__'):
                 kind = node.func.attr
-                if kind == 'setdefault' and len(node.args) == 2 and ast.unparse(node.args[1]) == f'len({ast.unparse(node.func.value)})':
+                if kind == 'setdefault' and len(node.args) == 2 and txt(node.args[1]) == f'len({txt(node.func.value)})':
                     kind = 'item'               # table.setdefault(key, len(table)): assigns a fresh id only when the key is new
-                    fresh_by_setdefault.append(enclosing(mi.tree, node))
-                writes.append((mname, enclosing(mi.tree, node), kind, node))
+                writes.append((mname, fname, kind, node))
+    for mname, qn, f, _ci in py.all_functions():
+        scan(mname, qn.split('.')[-1], f.body, [n for st in f.body for n in ast.walk(st)])
+    for mname, mi in py.modules.items():
+        scan(mname, '<module>', None, [n for st in mi.tree.body if not isinstance(st, (ast.FunctionDef, ast.ClassDef)) for n in ast.walk(st)])
     rebinds = [(m, f) for m, f, k, _n in writes if k == 'rebind']
     ctx.ob('one-symbol-table', 'created-once', rebinds == [('serializing_interpreter', '__init__')],
            f'the symbol table is (re)created in {rebinds}: it must be created in __init__ only, otherwise ids restart between the three files',
@@ -202,19 +225,28 @@ def symbol_table(ctx, py: PyRepo):
     items = [(m, f) for m, f, k, _n in writes if k == 'item']
     ctx.ob('one-symbol-table', 'written-only-by-symbol', set(items) == {('serializing_interpreter', 'symbol')},
            f'symbol ids are assigned in {sorted(set(items))}', where)
-    # ids are len(table) under a `not in` guard
+    # ids are len(table), assigned only when the name is new: on every path of `symbol` the id written is the table entry of the
+    # name, and an entry is stored only under `name not in table` (or by setdefault), with the value len(table)
     fn = ci.methods.get('symbol')
     ok = False
-    if fn is not None:
-        for n in ast.walk(fn):
-            if isinstance(n, ast.If) and isinstance(n.test, ast.Compare) and isinstance(n.test.ops[0], ast.NotIn) \
-                    and ATTR in ast.unparse(n.test.comparators[0]):
-                key = ast.unparse(n.test.left)
-                for st in n.body:
-                    if isinstance(st, ast.Assign) and isinstance(st.targets[0], ast.Subscript) and ATTR in ast.unparse(st.targets[0].value) \
-                            and ast.unparse(st.targets[0].slice) == key and ast.unparse(st.value) == f'len(self.{ATTR})':
-                        ok = True
-    ok = ok or fresh_by_setdefault == ['symbol']
+    if fn is not None and len(fn.args.args) == 2:
+        T, NAME = ('attr', SELF, ATTR), ('param', fn.args.args[1].arg)
+        LEN = ('call', ('name', 'len'), (T,), ())
+        w = Wiring(py)
+        got = w.serializer_cases('symbol')
+        ok = got is not None and bool(got[1])
+        for case in (got[1] if got else []):
+            rec = case['rec']
+            ids = [o[1] for o in case['operands'] if o[0] == 'scalar']
+            known = [b_ for c, b_ in rec['conds'] if c == ('cmp', 'in', NAME, T)]
+            good = False
+            if len(ids) == 1 and ids[0] == ('call', ('attr', T, 'setdefault'), (NAME, LEN), ()):
+                good = True
+            elif len(ids) == 1 and ids[0] == ('sub', T, NAME) and known == [True]:
+                good = True
+            elif len(ids) == 1 and ids[0] == ('sub', T, NAME) and known == [False]:
+                good = any(e.kind == 'setitem' and e.value == (T, NAME, LEN) for e in rec.get('events', []))
+            ok = ok and good
     ctx.ob('one-symbol-table', 'fresh-id-is-len', ok,
            'a new symbol must get id len(table) under a `name not in table` guard (injective and stable numbering)', py.where(ci.module, fn or ci.node))
     # ProofExp.serialize: one serializer, one execute_full over it per branch
@@ -237,18 +269,25 @@ def symbol_table(ctx, py: PyRepo):
 def bounded_writes(ctx, py: PyRepo):
     ci = py.cls('SerializingInterpreter')
     n = 0
+    emit_helpers: set[str] = set()
     for mname, fn in ci.methods.items():
         for node in ast.walk(fn):
             if isinstance(node, ast.Call) and ast.unparse(node.func) == 'self.out.write':
                 n += 1
                 arg = node.args[0] if node.args else None
                 is_bytes = isinstance(arg, ast.Call) and isinstance(arg.func, ast.Name) and arg.func.id == 'bytes' \
-                    and len(arg.args) == 1 and isinstance(arg.args[0], ast.List)
+                    and len(arg.args) == 1 and isinstance(arg.args[0], (ast.List, ast.Tuple))
+                # bytes(<*args of this method>): the tuple of the caller's arguments - bounded like a display; what the callers pass
+                # is checked at every call of this helper below
+                if isinstance(arg, ast.Call) and isinstance(arg.func, ast.Name) and arg.func.id == 'bytes' and len(arg.args) == 1 \
+                        and isinstance(arg.args[0], ast.Name) and fn.args.vararg is not None and arg.args[0].id == fn.args.vararg.arg:
+                    is_bytes = True
+                    emit_helpers.add(mname)
                 # a local that holds bytes([...]) is the same idiom
                 if isinstance(arg, ast.Name):
                     defs = [a for a in ast.walk(fn) if isinstance(a, ast.Assign) and isinstance(a.targets[0], ast.Name) and a.targets[0].id == arg.id]
                     if len(defs) == 1 and isinstance(defs[0].value, ast.Call) and ast.unparse(defs[0].value.func) == 'bytes' \
-                            and defs[0].value.args and isinstance(defs[0].value.args[0], ast.List):
+                            and defs[0].value.args and isinstance(defs[0].value.args[0], (ast.List, ast.Tuple)):
                         is_bytes, arg = True, defs[0].value
                 masked = False
                 helper = None
@@ -258,9 +297,10 @@ def bounded_writes(ctx, py: PyRepo):
                         if arg.func.id in hm.functions:
                             helper = hm.functions[arg.func.id]
                     if helper is not None:
-                        rets = [r for r in ast.walk(helper) if isinstance(r, ast.Return)]
+                        from .c16 import returned_exprs
+                        rets = returned_exprs(helper)
                         hp = [a.arg for a in helper.args.args]
-                        plain = len(rets) == 1 and len(hp) == 1 and ast.unparse(rets[0].value) == f'bytes({hp[0]})'
+                        plain = len(rets) == 1 and len(hp) == 1 and ast.unparse(rets[0][1]) == f'bytes({hp[0]})'
                         is_bytes = True
                         masked = not plain
                         arg = arg.args[0] if arg.args else arg
@@ -275,6 +315,19 @@ def bounded_writes(ctx, py: PyRepo):
                 ctx.ob('bounded-write', f'{ci.name}.{mname}:{n}', is_bytes and not masked,
                        f'{ast.unparse(node)}: every write must be bytes([...]) of unmasked ids - the constructor that raises above 255 - '
                        f'so that a module with more than 256 ids is refused rather than encoded ambiguously', py.where(ci.module, node))
+    # calls of a byte-emitting helper: the arguments are the bytes written
+    for mname, fn in ci.methods.items():
+        for node in ast.walk(fn):
+            if isinstance(node, ast.Call) and isinstance(node.func, ast.Attribute) and isinstance(node.func.value, ast.Name) \
+                    and node.func.value.id == 'self' and node.func.attr in emit_helpers:
+                n += 1
+                masked = any((isinstance(x, ast.BinOp) and isinstance(x.op, (ast.Mod, ast.BitAnd)))
+                             or (isinstance(x, ast.Call) and isinstance(x.func, ast.Attribute) and x.func.attr == 'to_bytes')
+                             or (isinstance(x, ast.Call) and isinstance(x.func, ast.Name) and x.func.id in ('min', 'bytearray'))
+                             for a in node.args for x in ast.walk(a))
+                ctx.ob('bounded-write', f'{ci.name}.{mname}:{n}', not masked,
+                       f'{ast.unparse(node)}: every byte written must be an unmasked id handed to bytes() - the constructor that raises '
+                       f'above 255 - so that a module with more than 256 ids is refused rather than encoded ambiguously', py.where(ci.module, node))
     ctx.analysed['serializer write sites'] = n
 
 
